@@ -30,6 +30,8 @@ type cfg[V any] struct {
 	class    func(v V) string // equivalence class under the collator
 	exact    bool             // classes are single values
 	collator func() age.CollatorLike[V]
+	// collatorB, when set, orders the second operand differently (same equality, another order)
+	collatorB func() age.CollatorLike[V]
 }
 
 var ops = []string{"And", "Or", "Sans", "Xor"}
@@ -37,9 +39,11 @@ var ops = []string{"And", "Or", "Sans", "Xor"}
 func run[V any](r *engine.Rec, c *cfg[V]) {
 	n := len(c.universe)
 	S := col.Set[V](common.N())
-	mk := func(mask int) col.SetLike[V] {
+	mkWith := func(mask int, second bool) col.SetLike[V] {
 		var s col.SetLike[V]
-		if c.collator != nil {
+		if second && c.collatorB != nil {
+			s = S.MakeWithCollator(c.collatorB())
+		} else if c.collator != nil {
 			s = S.MakeWithCollator(c.collator())
 		} else {
 			s = S.Make()
@@ -52,6 +56,10 @@ func run[V any](r *engine.Rec, c *cfg[V]) {
 		}
 		return s
 	}
+	mk := func(mask int) col.SetLike[V] { return mkWith(mask, false) }
+	prevRes := map[string]col.SetLike[V]{}
+	prevDump := map[string]string{}
+	prevCase := map[string]pairCase{}
 	classes := func(vals []V) map[string]bool {
 		m := map[string]bool{}
 		for _, v := range vals {
@@ -77,7 +85,7 @@ func run[V any](r *engine.Rec, c *cfg[V]) {
 						continue
 					}
 					A := mk(a)
-					B := mk(b)
+					B := mkWith(b, true)
 					if alias {
 						B = A
 					}
@@ -106,6 +114,11 @@ func run[V any](r *engine.Rec, c *cfg[V]) {
 						r.Violation(op+" changes an operand", fmt.Sprintf("%+v", pc), pc)
 						continue
 					}
+					// a result handed out earlier must keep its contents when the function is called again
+					if pr, ok := prevRes[op]; ok && dump.Dump(pr) != prevDump[op] {
+						r.Violation("a later call of "+op+" changes the set returned by an earlier call", fmt.Sprintf("earlier %+v, now %+v: earlier result is now %v", prevCase[op], pc, pr.AsArray()), pc)
+					}
+					delete(prevRes, op)
 					if any(res) == any(A) || any(res) == any(B) {
 						r.Violation(op+" returns an operand instead of a new set", fmt.Sprintf("%+v", pc), pc)
 						continue
@@ -150,6 +163,25 @@ func run[V any](r *engine.Rec, c *cfg[V]) {
 					if !asc {
 						r.Violation(op+" result not strictly ascending", fmt.Sprint(got), pc)
 						continue
+					}
+					if keep := S; keep != nil && len(got) > 0 {
+						// remember an untouched result of this call (built again, since the one above gets mutated below)
+						var again col.SetLike[V]
+						rt.Protect(4000000, func() {
+							switch op {
+							case "And":
+								again = S.And(A, B)
+							case "Or":
+								again = S.Or(A, B)
+							case "Sans":
+								again = S.Sans(A, B)
+							case "Xor":
+								again = S.Xor(A, B)
+							}
+						})
+						if again != nil {
+							prevRes[op], prevDump[op], prevCase[op] = again, dump.Dump(again), pc
+						}
 					}
 					// later changes to the result do not affect the operands and vice versa
 					for i, v := range c.universe {
@@ -223,6 +255,18 @@ func units(tier string) []engine.Unit {
 		run(r, &cfg[int]{name: "int coarse collator", universe: []int{1, 2, 3, 4, 5, 6}, class: func(v int) string { return fmt.Sprint(v / 2) },
 			collator: func() age.CollatorLike[int] { return &c02.FnCollator[int]{Name: "coarse", F: coarse} }})
 	})
+	add("int-first-natural-second-reversed", func(r *engine.Rec) {
+		rev := func(a, b int) age.Rank { return cmpInt(b, a) }
+		run(r, &cfg[int]{name: "int, operands ordered differently (same equality)", universe: []int{1, 2, 3, 4, 5}, class: func(v int) string { return fmt.Sprint(v) },
+			collatorB: func() age.CollatorLike[int] { return &c02.FnCollator[int]{Name: "rev", F: rev} }})
+	})
+	add("int-first-reversed-second-natural", func(r *engine.Rec) {
+		rev := func(a, b int) age.Rank { return cmpInt(b, a) }
+		nat := func(a, b int) age.Rank { return cmpInt(a, b) }
+		run(r, &cfg[int]{name: "int, first operand reversed, second natural", universe: []int{1, 2, 3, 4, 5}, class: func(v int) string { return fmt.Sprint(v) },
+			collator:  func() age.CollatorLike[int] { return &c02.FnCollator[int]{Name: "rev", F: rev} },
+			collatorB: func() age.CollatorLike[int] { return &c02.FnCollator[int]{Name: "nat", F: nat} }})
+	})
 	add("slice", func(r *engine.Rec) {
 		run(r, &cfg[[]int]{name: "[]int", universe: [][]int{{}, {1}, {1, 2}, {2}}, class: func(v []int) string { return fmt.Sprint(v) }})
 	})
@@ -245,7 +289,7 @@ func init() {
 		ID:        "C15",
 		Technique: "bounded-exhaustive enumeration on the real Set class functions: all pairs of subsets of a 6-value universe (incl. the same object passed twice) x And/Or/Sans/Xor for int and string, all pairs over smaller universes for []int, any, sets of sets and for reversed/coarse caller-supplied collators; operand and result private dumps compared before/after, then mutated to expose sharing",
 		Rule:      "case = (element type, subset A, subset B, same-object flag, operation); distinct = distinct (A,B,alias) triples",
-		Assume:    []string{"operands with different collators are not generated (no defined result)"},
+		Assume:    []string{"operands whose collators disagree on equality are not generated (no defined result); operands ordered differently with the same equality are"},
 		Budget:    func(string) time.Duration { return 4 * time.Minute },
 		Units:     units,
 	})
